@@ -948,6 +948,52 @@ const VHDB = RepoModule + "/internal/zzverif/vhdb"
 
 func (P *Program) registerVHDB() {
 	hDB := hDBOf
+	// ---- the start-up sequence of the database package: connect attaches the model database that
+	// belongs to the configured file path (creating it, with the schema of the migrations, on first
+	// use); doMigrations is a no-op (schema already in place). Everything else in database.Init -
+	// genesis insertion, import, any consistency check - is executed from source.
+	DBP := RepoModule + "/database"
+	P.reg(VHDB+".TempPath", func(fr *frame, args []value) value {
+		n, _ := fr.in.extra["temp-paths"].(int)
+		fr.in.extra["temp-paths"] = n + 1
+		return fmt.Sprintf("/vhdb-model/%d.sqlite", n)
+	})
+	P.reg(VHDB+".MigrationsDir", func(fr *frame, args []value) value { return "/vhdb-model/migrations" })
+	P.reg("(*"+DBP+".sqLiteAdapter).connect", func(fr *frame, args []value) value {
+		in := fr.in
+		cfgp := args[1].(*value)
+		if cfgp == nil {
+			panic(targetPanic{msg: "runtime error: invalid memory address or nil pointer dereference"})
+		}
+		cfgT := in.P.namedType(RepoModule + "/config.DbConfig")
+		cfg := (*cfgp).(structure)
+		sq := cfg[structField(cfgT, "SQLite")]
+		var path string
+		switch q := sq.(type) {
+		case structure:
+			path = in.goStr(q[structField(in.P.namedType(RepoModule+"/config.SQLiteConfig"), "FilePath")], "sqlite file path")
+		case *value:
+			if q == nil {
+				panic(targetPanic{msg: "runtime error: invalid memory address or nil pointer dereference"})
+			}
+			path = in.goStr((*q).(structure)[structField(in.P.namedType(RepoModule+"/config.SQLiteConfig"), "FilePath")], "sqlite file path")
+		}
+		key := "dbfile:" + path
+		st, _ := in.extra[key].(*dbState)
+		if st == nil {
+			st = in.newDBState()
+			in.extra[key] = st
+		}
+		var inner value = &opaque{kind: "sql.DB", data: &dbHandle{st: st}}
+		outer := in.zero(in.P.namedType("github.com/jmoiron/sqlx.DB"))
+		outer.(structure)[0] = &inner
+		var dbv value = &outer
+		ad := (*args[0].(*value)).(structure)
+		ad[structField(in.P.namedType(DBP+".sqLiteAdapter"), "db")] = dbv
+		in.path.noteAssumption("sqLiteAdapter.connect attaches the model database of the configured file; doMigrations is a no-op (schema in place)")
+		return iface{}
+	})
+	P.reg("(*"+DBP+".sqLiteAdapter).doMigrations", func(fr *frame, args []value) value { return iface{} })
 	P.reg(VHDB+".NewDB", func(fr *frame, args []value) value {
 		var inner value = &opaque{kind: "sql.DB", data: &dbHandle{st: fr.in.newDBState()}}
 		outer := fr.in.zero(deref(fr.fn.Signature.Results().At(0).Type()))
